@@ -5,10 +5,19 @@ import LitexModel.Fhdl.Syntax
 
   call x <lw> ; <FHDL expr> ; <Verilog expr parsed from the real text> ; <env> ; <env> ; ...
      env = the values of signals 0,1,2,… (signed decimal).
-     -> "<printeq> <W> ; <evalF> <assignF> <assignV(real text)> <fits> ; ..."
+     -> "<printeq> <W> <static> ; <evalF> <storeF> <assignV(real text)> <fits> ; ..."
         printeq = "ok" if printE(FHDL expr) is node-for-node the parsed text, else "diff:<path>"
-        assignF = bits stored by Evaluator.assign into an lw-bit target, assignV = bits stored by the Verilog
-        assignment of the real text to an lw-bit target, fits = the side condition `Fits` of printE_correct_partial.
+        storeF = bits stored by Evaluator.assign into an lw-bit target, assignV = bits stored by the Verilog
+        assignment of the real text to an lw-bit target, fits = the side condition `Fits` of
+        printE_correct_partial, static = staticallyFits.
+
+  call sim <fuel> ; sigs ; comb groups ; sync domains ; verilog items ; verilog decls ; ios ; inputs ; observed ; cycle ; cycle ...
+     (formats in the code below)  Runs stepF on the serialised lowered fragment and stepV on the items parsed from
+     the real text, in lock step.
+     -> "<printeq> <decleq> <nsites> ; <mism> <fits> <F values of observed…> [! nonfit site indices] ; ..."
+        per cycle, after the inputs are applied and both sides have settled: mism = 0 if the Verilog state equals
+        the bits of the FHDL state, else 1 + id of the first differing signal (the Verilog side is then
+        resynchronised); fits = every statement of the module satisfies its side condition in this state.
 -/
 open Litex Litex.Driver Litex.C01
 
@@ -28,18 +37,228 @@ def callX (secs : List (List String)) : Option String := do
       | none => "ok"
       | some p => "diff:" ++ p
     let W := max lw (selfWidth v)
+    let st := staticallyFits e W
     let outs ← envs.mapM fun ws => do
       let vals ← parseInts ws
       let ρ := envOf vals
       let f := evalF ρ e
       let fits := Fits ρ e W
-      some s!"{f} {assignF ρ lw e} {assignV ρ lw v} {if fits then 1 else 0}"
-    some (" ; ".intercalate (s!"{peq} {W}" :: outs))
+      some s!"{f} {storeF ρ lw e} {assignV ρ lw v} {if fits then 1 else 0}"
+    some (" ; ".intercalate (s!"{peq} {W} {if st then 1 else 0}" :: outs))
+  | _ => none
+
+/-! ### module simulation -/
+
+partial def parseSigs : Nat → List String → Option (List SigDecl × List String)
+  | 0, r => some ([], r)
+  | n + 1, w :: s :: rst :: name :: r => do
+    let (ds, r) ← parseSigs n r
+    some ({ w := ← w.toNat?, s := ← parseBool s, reset := ← rst.toInt?, name := name } :: ds, r)
+  | _, _ => none
+
+partial def takeNats : Nat → List String → Option (List Nat × List String)
+  | 0, r => some ([], r)
+  | n + 1, x :: r => do
+    let (xs, r) ← takeNats n r
+    some ((← x.toNat?) :: xs, r)
+  | _, _ => none
+
+partial def parseGroups : Nat → List String → Option (List CombGroup × List String)
+  | 0, r => some ([], r)
+  | n + 1, "G" :: nt :: r => do
+    let (ts, r) ← takeNats (← nt.toNat?) r
+    let (ss, r) ← parseFSsN r
+    let (gs, r) ← parseGroups n r
+    some ({ targets := ts, stmts := ss } :: gs, r)
+  | _, _ => none
+
+partial def parseDoms : Nat → List String → Option (List SyncDom × List String)
+  | 0, r => some ([], r)
+  | n + 1, "D" :: name :: clk :: r => do
+    let (ss, r) ← parseFSsN r
+    let (ds, r) ← parseDoms n r
+    some ({ name := name, clk := ← clk.toNat?, stmts := ss } :: ds, r)
+  | _, _ => none
+
+partial def parseVItemsM : Nat → List String → Option (List VItem × List String)
+  | 0, r => some ([], r)
+  | n + 1, "assign" :: r => do
+    let (l, r) ← parseVE r
+    let (e, r) ← parseVE r
+    let (is, r) ← parseVItemsM n r
+    some (.assign l e :: is, r)
+  | n + 1, "comb" :: r => do
+    let (b, r) ← parseVSsN r
+    let (is, r) ← parseVItemsM n r
+    some (.comb b :: is, r)
+  | n + 1, "sync" :: clk :: r => do
+    let (b, r) ← parseVSsN r
+    let (is, r) ← parseVItemsM n r
+    some (.sync (← clk.toNat?) b :: is, r)
+  | _, _ => none
+
+structure VDecl where
+  id : Nat
+  kind : String
+  w : Nat
+  s : Bool
+  init : Option VExpr
+
+partial def parseDecls : Nat → List String → Option (List VDecl × List String)
+  | 0, r => some ([], r)
+  | n + 1, i :: kind :: w :: s :: "0" :: r => do
+    let (ds, r) ← parseDecls n r
+    some ({ id := ← i.toNat?, kind := kind, w := ← w.toNat?, s := ← parseBool s, init := none } :: ds, r)
+  | n + 1, i :: kind :: w :: s :: "1" :: r => do
+    let (e, r) ← parseVE r
+    let (ds, r) ← parseDecls n r
+    some ({ id := ← i.toNat?, kind := kind, w := ← w.toNat?, s := ← parseBool s, init := some e } :: ds, r)
+  | _, _ => none
+
+mutual
+partial def targetsE : Expr → List Nat
+  | .sig i _ _ => [i]
+  | .slice a _ _ => targetsE a
+  | .cat l => l.flatMap targetsE
+  | _ => []
+partial def targetsS : Stmt → List Nat
+  | .assign l _ => targetsE l
+  | .ite _ t f => targetsSs t ++ targetsSs f
+  | .case _ items _ d => targetsItems items ++ targetsSs d
+partial def targetsSs : Stmts → List Nat
+  | .nil => []
+  | .cons s ss => targetsS s ++ targetsSs ss
+partial def targetsItems : Items → List Nat
+  | .nil => []
+  | .cons _ _ _ b r => targetsSs b ++ targetsItems r
+end
+
+/-- `_generate_module` / `_generate_signals`: expected declaration of signal `i`. -/
+def expectDecl (f : FModule) (ios wires targets : List Nat) (i : Nat) : String × Option VExpr :=
+  let d := f.sigs.getD i default
+  if ios.contains i then
+    if targets.contains i then (if wires.contains i then "ow" else "or", none) else ("iw", none)
+  else if wires.contains i then ("w", none)
+  else ("r", some (printConst d.reset d.w d.s).1)
+
+def checkDecls (f : FModule) (ios : List Nat) (decls : List VDecl) : String :=
+  let wires := combWires f
+  let targets := f.comb.flatMap (fun g => targetsSs g.stmts) ++ f.sync.flatMap (fun d => targetsSs d.stmts)
+  let bad := decls.filterMap fun d =>
+    let sd := f.sigs.getD d.id default
+    let (k, init) := expectDecl f ios wires targets d.id
+    if d.kind != k then some s!"{d.id}:kind:{k}" else
+    if d.w != sd.w || d.s != sd.s then some s!"{d.id}:type" else
+    match init, d.init with
+    | none, none => none
+    | some a, some b => (diffV a b).map (fun p => s!"{d.id}:init:{p}")
+    | _, _ => some s!"{d.id}:init-presence"
+  match bad with
+  | [] => if decls.length == f.sigs.size then "ok" else s!"diff:count:{decls.length}:{f.sigs.size}"
+  | b :: _ => "diff:" ++ b
+
+-- Indices (pre-order over comb groups then sync domains) of the statements whose side condition fails.
+mutual
+partial def sitesS (ρ : Env) : Stmt → Nat → List Nat × Nat
+  | .assign l r, n => (if fitsAssign ρ l r then [] else [n], n + 1)
+  | .ite c t f, n =>
+    let (a, n1) := sitesSs ρ t (n + 1)
+    let (b, n2) := sitesSs ρ f n1
+    ((if fitsCond ρ c then [] else [n]) ++ a ++ b, n2)
+  | .case test items _ d, n =>
+    let (a, n1) := sitesItems ρ items (n + 1)
+    let (b, n2) := sitesSs ρ d n1
+    ((if fitsCase ρ test items then [] else [n]) ++ a ++ b, n2)
+partial def sitesSs (ρ : Env) : Stmts → Nat → List Nat × Nat
+  | .nil, n => ([], n)
+  | .cons s ss, n =>
+    let (a, n1) := sitesS ρ s n
+    let (b, n2) := sitesSs ρ ss n1
+    (a ++ b, n2)
+partial def sitesItems (ρ : Env) : Items → Nat → List Nat × Nat
+  | .nil, n => ([], n)
+  | .cons _ _ _ body rest, n =>
+    let (a, n1) := sitesSs ρ body n
+    let (b, n2) := sitesItems ρ rest n1
+    (a ++ b, n2)
+end
+
+def sitesModule (f : FModule) (ρ : Env) : List Nat × Nat :=
+  let (l1, n1) := f.comb.foldl (fun (acc : List Nat × Nat) g =>
+    let (a, n) := sitesSs ρ g.stmts acc.2; (acc.1 ++ a, n)) ([], 0)
+  f.sync.foldl (fun (acc : List Nat × Nat) d =>
+    let (a, n) := sitesSs ρ d.stmts acc.2; (acc.1 ++ a, n)) (l1, n1)
+
+def bitsOfF (f : FModule) (a : Array Int) : Array Int :=
+  (Array.range a.size).map fun i => tn (widthOf f.sigs i) (a.getD i 0)
+
+def firstDiff (a b : Array Int) : Nat :=
+  match (List.range a.size).find? (fun i => a.getD i 0 != b.getD i 0) with
+  | some i => i + 1
+  | none => 0
+
+def setInputs (f : FModule) (a : Array Int) (ins : List Nat) (vals : List Int) (signedVals : Bool) : Array Int :=
+  (ins.zip vals).foldl (fun acc (iv : Nat × Int) =>
+    let d := f.sigs.getD iv.1 default
+    acc.setIfInBounds iv.1 (if signedVals then truncS d.w d.s iv.2 else tn d.w iv.2)) a
+
+def callSim (secs : List (List String)) : Option String := do
+  match secs with
+  | [fuel] :: sigsS :: combS :: syncS :: vitemsS :: declsS :: iosS :: insS :: obsS :: cycles =>
+    let fuel ← fuel.toNat?
+    let (sigs, _) ← match sigsS with | n :: r => parseSigs (← n.toNat?) r | _ => none
+    let (groups, r1) ← match combS with | n :: r => parseGroups (← n.toNat?) r | _ => none
+    let (doms, r2) ← match syncS with | n :: r => parseDoms (← n.toNat?) r | _ => none
+    let (vitems, r3) ← match vitemsS with | n :: r => parseVItemsM (← n.toNat?) r | _ => none
+    let (decls, r4) ← match declsS with | n :: r => parseDecls (← n.toNat?) r | _ => none
+    if !r1.isEmpty || !r2.isEmpty || !r3.isEmpty || !r4.isEmpty then none
+    let (ios, _) ← match iosS with | n :: r => takeNats (← n.toNat?) r | _ => none
+    let (ins, _) ← match insS with | n :: r => takeNats (← n.toNat?) r | _ => none
+    let (obs, _) ← match obsS with | n :: r => takeNats (← n.toNat?) r | _ => none
+    let f : FModule := { sigs := sigs.toArray, comb := groups, sync := doms }
+    let peq := match diffItems 0 (printModule f) vitems with
+      | none => "ok"
+      | some p => "diff:" ++ p
+    let deq := checkDecls f ios decls
+    let nsites := (sitesModule f (fun _ => 0)).2
+    -- initial states
+    let aF0 := initF f
+    let aV0 : Array Int := decls.foldl (fun acc d =>
+      match d.init with
+      | some e => acc.setIfInBounds d.id (assignV (fun _ => 0) d.w e)
+      | none => acc) (Array.replicate f.sigs.size 0)
+    let rec go (aF aV : Array Int) (cyc : List (List String)) (acc : List String) : Option (List String) :=
+      match cyc with
+      | [] => some acc.reverse
+      | c :: rest => do
+        match c with
+        | k :: r =>
+          let (clks, r) ← takeNats (← k.toNat?) r
+          let vals ← parseInts r
+          let aF := settleF f fuel (setInputs f aF ins vals true)
+          let aV := settleV f.sigs vitems fuel (setInputs f aV ins vals false)
+          let bF := bitsOfF f aF
+          let mism := firstDiff bF aV
+          let fits := fitsModule f aF
+          let obsVals := " ".intercalate (obs.map fun i => toString (aF.getD i 0))
+          let extra := if !fits then
+              " ! " ++ " ".intercalate ((sitesModule f (envA aF)).1.map toString)
+            else ""
+          let line := s!"{mism} {if fits then 1 else 0} {obsVals}{extra}"
+          -- resynchronise the Verilog side after a divergence, then clock edge on both
+          let aV := if mism != 0 then bF else aV
+          let aF' := commitF aF (syncPassF f aF clks)
+          let aV' := commitV f.sigs aV (syncPassV vitems aV clks)
+          go aF' aV' rest (line :: acc)
+        | [] => none
+    let lines ← go aF0 aV0 cycles []
+    some (" ; ".intercalate (s!"{peq} {deq} {nsites}" :: lines))
   | _ => none
 
 def call (args : List String) : Option String :=
   match args with
   | "x" :: rest => callX (splitSemi rest)
+  | "sim" :: rest => callSim (splitSemi rest)
   | _ => none
 
 def main : IO Unit := mainLoop (fun _ _ _ => none) call
